@@ -96,7 +96,7 @@ def _b_plan(tier):
                  "vt_gp_fifo", "vt_modelfree"]
                 + ["sim_" + s for s in SIM_SCHED[:9]])
     out = []
-    for r in range(10):
+    for r in range(11):
         out += VT_SCEN + ["sim_" + s for s in SIM_SCHED]
     return out
 
@@ -128,7 +128,8 @@ def floors(tier):
         "A:rea_mutations": 30 * k,
         "A:multi_bracket_histories": 40 * k,
         "decided:process_pair": 24 if tier == "quick" else 300,
-        "B:gp_model_based_suggestions": 40 if tier == "quick" else 400,
+        "B:gp_model_based_suggestions": 30 if tier == "quick" else 300,
+        "B:cases_with_distinct_string_hashes": 12 if tier == "quick" else 120,
         "decided:result_table_cells": 2000 if tier == "quick" else 20000,
     })
     for sc in set(_b_plan(tier)):
@@ -1233,7 +1234,9 @@ def compare_children(ref, other):
                 if sorted(rx) != sorted(ry):
                     what = "result_columns_differ"
                 else:
-                    col = next(c for c in sorted(rx) if rx[c] != ry[c])
+                    prio = {"trial_id": 0, "resource": 1, "config": 2, "decision": 3, "status": 4, "metric": 5,
+                            "elapsed_time": 6, "tuner_time": 7, "other_column": 8}
+                    col = min((c for c in rx if rx[c] != ry[c]), key=lambda c: (prio[_col_class(c)], c))
                     what = "result_cell_differs:" + _col_class(col)
                     detail["column"] = col
             elif et == "suggest":
